@@ -128,3 +128,105 @@ def startup_order_ok(names):
     for p in PRIV_STEPS:
         ok = ok and before(names, "bind", p) and before(names, "load_cert_chain", p)
     return ok
+
+
+# ---------------------------------------------------------------------------- C02
+import re
+from ssl import SSLSocket
+
+
+def tls(proto):
+    """A connection is TLS iff its request object is an SSL socket."""
+    return isinstance(proto.requesthandler.request, SSLSocket)
+
+
+def tls_conn(requesthandler):
+    return isinstance(requesthandler.request, SSLSocket)
+
+
+def tabfields(request):
+    return [a.strip() for a in request.split("\t")]
+
+
+def spacefields(request):
+    return [a.strip() for a in request.split(" ")]
+
+
+def shape_gplus(request):
+    """Gopher+: selector TAB [search TAB] gopher+-field, the field being '!' or starting with + or $."""
+    f = tabfields(request)
+    if len(f) == 2:
+        g = f[1]
+    elif len(f) == 3:
+        g = f[2]
+    else:
+        return False
+    return g == "!" or g.startswith("+") or g.startswith("$")
+
+
+def shape_http(request):
+    p = spacefields(request)
+    return len(p) == 3 and (p[0] == "GET" or p[0] == "HEAD") and p[2].startswith("HTTP/")
+
+
+def wap_headers(h):
+    return ("accept" in h and re.search("[, ]text/vnd.wap.wml", h["accept"]) is not None
+            and ("x-wap-profile" in h or "x-up-devcap-max-pdu" in h))
+
+
+def shape_wap(request, waptop, headers):
+    if not shape_http(request):
+        return False
+    if spacefields(request)[1].startswith(waptop):
+        return True
+    return wap_headers(headers)
+
+
+def shape_gemini(request):
+    return request.startswith("gemini://")
+
+
+def shape_spartan(request):
+    """host SP path SP content-length: ASCII, three non-empty parts, the third all digits."""
+    if not request.isascii():
+        return False
+    parts = request.strip().split(" ")
+    return len(parts) == 3 and parts[0] != "" and parts[1] != "" and parts[2] != "" and parts[2].isdigit()
+
+
+TLS_PROTOCOLS = ["GeminiProtocol", "HTTPSProtocol", "SecureGopherProtocol", "SecureGopherPlusProtocol"]
+
+
+def proto_matches(name, request, is_tls, waptop, headers):
+    """Does protocol class `name` claim this first line on a (non-)TLS connection?"""
+    if (name in TLS_PROTOCOLS) != is_tls:
+        return False
+    if name == "GopherProtocol" or name == "SecureGopherProtocol" or name == "EnhancedGopherProtocol":
+        return True
+    if name == "GopherPlusProtocol" or name == "SecureGopherPlusProtocol" or name == "URLGopherPlus":
+        return shape_gplus(request)
+    if name == "HTTPProtocol" or name == "HTTPSProtocol":
+        return shape_http(request)
+    if name == "WAPProtocol":
+        return shape_wap(request, waptop, headers)
+    if name == "GeminiProtocol":
+        return shape_gemini(request)
+    if name == "SpartanProtocol":
+        return shape_spartan(request)
+    return False
+
+
+def first_matching(order, request, is_tls, waptop, headers):
+    for name in order:
+        if proto_matches(name, request, is_tls, waptop, headers):
+            return name
+    return None
+
+
+def norm(s):
+    """Selector normal form: one trailing slash dropped, leading slash added."""
+    if len(s) > 0 and s[-1] == "/":
+        s = s[:-1]
+    if len(s) == 0 or s[0] != "/":
+        s = "/" + s
+    return s
